@@ -33,6 +33,10 @@ type trConf struct {
 	atoms  map[string]string // Go source text -> Lean term
 	skip   []string          // statements (source text) that only serve atoms
 	ret    string            // Lean result type
+	// returns: for functions whose results are not plain values (errors, store writes): the exact source text of
+	// each `return …` statement -> the Lean term it stands for
+	returns map[string]string
+	prelude string // Lean declarations the definition needs (result type)
 }
 
 var trConfs = []trConf{
@@ -60,6 +64,29 @@ var trConfs = []trConf{
 	{key: "x/consensus/keeper/filters.IsUnprocessed", lean: "isUnprocessed", ret: "Bool",
 		params: []trParam{{"hasPublicAccessData", "Bool"}, {"hasErrorData", "Bool"}},
 		atoms:  map[string]string{"msg.GetPublicAccessData() == nil": "!hasPublicAccessData", "msg.GetErrorData() == nil": "!hasErrorData"}},
+	{key: "x/skyway/keeper.Keeper.bridgeTaxAmount", lean: "bridgeTaxAmount", ret: "Option Int",
+		params: []trParam{{"settingFound", "Bool"}, {"lookupFailed", "Bool"}, {"num", "Int"}, {"denom", "Int"}, {"exempt", "List Nat"}, {"sender", "Nat"}, {"amt", "Int"}},
+		atoms: map[string]string{"err != nil": "!settingFound", "errors.Is(err, keeperutil.ErrNotFound)": "!lookupFailed",
+			"bRate.Sign() == 0": "num == 0", "bridgeTax.ExemptAddresses": "exempt", "sender.Equals(addr)": "sender == addr", "coin.Amount": "amt"},
+		skip: []string{"bridgeTax, err := k.BridgeTax(ctx, coin.Denom)", "bRate, _ := new(big.Rat).SetString(bridgeTax.Rate)",
+			"num := math.NewIntFromBigInt(bRate.Num())", "denom := math.NewIntFromBigInt(bRate.Denom())"},
+		returns: map[string]string{"return math.ZeroInt(), nil": "some 0", "return math.ZeroInt(), err": "none",
+			"return coin.Amount.Mul(num).Quo(denom), nil": "some (Int.tdiv (amt * num) denom)"}},
+	{key: "x/skyway/keeper.Keeper.UpdateBridgeTransferUsageWithLimit", lean: "updateUsage", ret: "UsageOutcome",
+		prelude: "/-- what `UpdateBridgeTransferUsageWithLimit` does: nothing, fail on a store error, refuse the transfer, or persist a usage record -/\ninductive UsageOutcome where\n  | unchanged | error | rejected\n  | saved (total start : Int)\nderiving DecidableEq, Repr",
+		params: []trParam{{"limitsFound", "Bool"}, {"limitsLookupFailed", "Bool"}, {"usageLookupFailed", "Bool"}, {"exempt", "List Nat"}, {"sender", "Nat"},
+			{"period", "Int"}, {"limit", "Int"}, {"usageAbsent", "Bool"}, {"uStart", "Int"}, {"uTotal", "Int"}, {"h", "Int"}, {"amt", "Int"}},
+		atoms: map[string]string{"err != nil": "!limitsFound", "errors.Is(err, keeperutil.ErrNotFound)": "!limitsLookupFailed",
+			"err != nil && !errors.Is(err, keeperutil.ErrNotFound)": "usageLookupFailed",
+			"limits.ExemptAddresses": "exempt", "sender.Equals(addr)": "sender == addr",
+			"limits.LimitPeriod == types.LimitPeriod_NONE": "period == 0",
+			"sdk.UnwrapSDKContext(ctx).BlockHeight()": "h", "usage == nil || usage.Total.IsNil()": "usageAbsent",
+			"usage.StartBlockHeight": "uStart", "usage.Total": "uTotal", "limits.BlockLimit()": "period", "limits.Limit": "limit", "coin.Amount": "amt"},
+		skip: []string{"limits, err := k.BridgeTransferLimit(ctx, coin.Denom)", "usage, err := k.BridgeTransferUsage(ctx, coin.Denom)",
+			"st := k.GetStore(ctx, types.BridgeTransferUsagePrefix)"},
+		returns: map[string]string{"return nil": ".unchanged", "return err": ".error",
+			"return fmt.Errorf(\"limit for bridge transfer reached %v\", limits.Limit)": ".rejected",
+			"return keeperutil.Save(st, k.cdc, []byte(coin.Denom), &newUsage)": ".saved newUsage_Total newUsage_StartBlockHeight"}},
 	{key: "x/metrix/keeper.calculateUptime", lean: "calculateUptimeGuard", ret: "Bool",
 		params: []trParam{{"window", "Int"}, {"missed", "Int"}},
 		// only the guard is arithmetic; the division goes through big.Float (modelled in C14's score arithmetic)
@@ -72,6 +99,8 @@ type trCtx struct {
 	fi   *funcInfo
 	conf trConf
 	err  string
+	// locals of struct type, flattened to one variable per translatable field
+	structLocals map[string][]string
 }
 
 func (c *trCtx) fail(format string, a ...interface{}) string {
@@ -211,6 +240,17 @@ func (c *trCtx) expr(e ast.Expr) string {
 			return "(" + l + " || " + r + ")"
 		}
 		return c.fail("binary %s", x.Op)
+	case *ast.SelectorExpr:
+		if id, ok := x.X.(*ast.Ident); ok {
+			if fields, ok := c.structLocals[id.Name]; ok {
+				for _, f := range fields {
+					if f == x.Sel.Name {
+						return id.Name + "_" + f
+					}
+				}
+			}
+		}
+		return c.fail("selector %s", text)
 	case *ast.IndexExpr:
 		// s[i] on a list of Int: total access with the element type's zero, as the Go code never indexes out of range
 		// on the paths translated here (the index is `len(s)-1` of a non-empty constant list)
@@ -324,6 +364,21 @@ func (c *trCtx) block(stmts []ast.Stmt, ind string, out *[]string) {
 				for i, n := range vs.Names {
 					obj := c.fi.pkg.TypesInfo.Defs[n]
 					lt := c.leanType(obj.Type())
+					if st, ok := obj.Type().Underlying().(*types.Struct); ok && lt == "" && i >= len(vs.Values) {
+						// `var v T` for a struct T: one mutable variable per field of a translatable type
+						var fields []string
+						for k := 0; k < st.NumFields(); k++ {
+							if ft := c.leanType(st.Field(k).Type()); ft != "" {
+								fields = append(fields, st.Field(k).Name())
+								emit(fmt.Sprintf("let mut %s_%s : %s := %s", n.Name, st.Field(k).Name(), ft, c.zero(st.Field(k).Type())))
+							}
+						}
+						if c.structLocals == nil {
+							c.structLocals = map[string][]string{}
+						}
+						c.structLocals[n.Name] = fields
+						continue
+					}
 					if lt == "" {
 						c.fail("variable %s of type %s", n.Name, obj.Type())
 						continue
@@ -343,6 +398,39 @@ func (c *trCtx) block(stmts []ast.Stmt, ind string, out *[]string) {
 			id, ok := s.Lhs[0].(*ast.Ident)
 			if !ok {
 				c.fail("assignment target %s", src(s.Lhs[0]))
+				continue
+			}
+			if fields, isStruct := c.structLocals[id.Name]; isStruct {
+				cl, ok := s.Rhs[0].(*ast.CompositeLit)
+				if !ok || s.Tok != token.ASSIGN {
+					c.fail("struct assignment %s", text)
+					continue
+				}
+				set := map[string]bool{}
+				for _, el := range cl.Elts {
+					kv, ok := el.(*ast.KeyValueExpr)
+					if !ok {
+						c.fail("positional struct literal %s", text)
+						continue
+					}
+					known := false
+					for _, f := range fields {
+						if f == src(kv.Key) {
+							known = true
+						}
+					}
+					if !known {
+						c.fail("field %s of %s", src(kv.Key), id.Name)
+						continue
+					}
+					set[src(kv.Key)] = true
+					emit(fmt.Sprintf("%s_%s := %s", id.Name, src(kv.Key), c.expr(kv.Value)))
+				}
+				for _, f := range fields {
+					if !set[f] {
+						emit(fmt.Sprintf("%s_%s := 0", id.Name, f))
+					}
+				}
 				continue
 			}
 			r := c.expr(s.Rhs[0])
@@ -377,6 +465,15 @@ func (c *trCtx) block(stmts []ast.Stmt, ind string, out *[]string) {
 				}
 			}
 		case *ast.ReturnStmt:
+			if c.conf.returns != nil {
+				t, ok := c.conf.returns[text]
+				if !ok {
+					c.fail("return statement without a configured meaning: %s", text)
+					continue
+				}
+				emit("return " + t)
+				continue
+			}
 			if len(s.Results) != 1 {
 				c.fail("return with %d results", len(s.Results))
 				continue
@@ -390,6 +487,18 @@ func (c *trCtx) block(stmts []ast.Stmt, ind string, out *[]string) {
 			v := "_"
 			if s.Value != nil {
 				v = src(s.Value)
+			}
+			// search idiom `for _, v := range L { if cond { return E } }`: the first element satisfying cond decides
+			if len(s.Body.List) == 1 {
+				if is, ok := s.Body.List[0].(*ast.IfStmt); ok && is.Init == nil && is.Else == nil && len(is.Body.List) == 1 {
+					if _, ok := is.Body.List[0].(*ast.ReturnStmt); ok {
+						emit(fmt.Sprintf("match (%s).find? (fun %s => %s) with", c.expr(s.X), v, c.expr(is.Cond)))
+						emit(fmt.Sprintf("| some %s =>", v))
+						c.block(is.Body.List, ind+"  ", out)
+						emit("| none => pure ()")
+						continue
+					}
+				}
 			}
 			emit(fmt.Sprintf("for %s in %s do", v, c.expr(s.X)))
 			c.block(s.Body.List, ind+"  ", out)
@@ -435,7 +544,7 @@ func (c *trCtx) block(stmts []ast.Stmt, ind string, out *[]string) {
 
 func genTranslated(w *world) {
 	var b strings.Builder
-	b.WriteString("namespace Paloma.Gen.Translated\n\n")
+	b.WriteString("set_option linter.unusedVariables false\n\nnamespace Paloma.Gen.Translated\n\n")
 	var status []string
 	for _, conf := range trConfs {
 		fi := w.byKey[conf.key]
@@ -455,6 +564,9 @@ func genTranslated(w *world) {
 		var ps []string
 		for _, p := range conf.params {
 			ps = append(ps, fmt.Sprintf("(%s : %s)", p.name, p.typ))
+		}
+		if conf.prelude != "" {
+			b.WriteString(conf.prelude + "\n\n")
 		}
 		fmt.Fprintf(&b, "/-- translated from `%s` (%s) -/\n", conf.key, posOf(fi.decl.Pos()))
 		fmt.Fprintf(&b, "def %s %s : %s := Id.run do\n%s\n\n", conf.lean, strings.Join(ps, " "), conf.ret, strings.Join(lines, "\n"))
